@@ -389,7 +389,7 @@ class _Generator(Generator):
                     inner = '    {} |= {}u;'.format(present_mask, mask)
 
                     if self.is_buffer_type(member):
-                        default_variable = canonical(member.name) + '_default'
+                        default_variable = self.get_buffer_default_variable(member)
 
                         encode_lines += [
                             'if ({}) {{'.format(
